@@ -50,7 +50,7 @@ theorem rxso3Exp_tangent (eps : ℝ) (heps : 0 ≤ eps) (x : ℝ → DVec ℝ) (
 
 /-- **`RxSO3_Log.backward`** in regime 1: velocity `rxso3_Jl_inv(Log X)·τ` (rotation block from `SO3_Log`, scale `log s`) -/
 theorem RxSO3Log_tangent (eps : ℝ) (heps : 0 ≤ eps) (X : ℝ → DVec ℝ) (a0 a1 a2 a3 : ℝ)
-    (hX : LCurve 5 X (liftG .RxSO3 (X 0) [a0, a1, a2, a3])) (hu : (qt (X 0)).normSq = 1) (hs : nth (X 0) 4 ≠ 0)
+    (hX : LCurve 5 X (liftG .RxSO3 (X 0) [a0, a1, a2, a3])) (hu : (qt (X 0)).normSq = 1) (hs : 0 < nth (X 0) 4)
     (hv : eps < (qt (X 0)).vec.norm) (hw : eps < |(qt (X 0)).w|)
     (hφ : eps < (v3 (logF .SO3 eps [nth (X 0) 0, nth (X 0) 1, nth (X 0) 2, nth (X 0) 3])).norm) :
     LCurve 4 (fun t => logF .RxSO3 eps (X t))
